@@ -7,7 +7,9 @@
         → `apci_roundtrip` (all headers meeting `WFHeader`, i.e. exactly the
           fields of the type, octets < 256, codes < 8 / < 16; any payload),
           `apdu_roundtrip` (the same through `APDU.encode/decode`),
-          `wf_encodes`, and per type `apci_roundtrip_confirmed` … `_abort`.
+          `wf_encodes`, and per type `apci_roundtrip_confirmed` … `_abort`;
+          `wf_mkConfirmed` … `wf_mkAbort`: the model's constructors (used by the
+          protocol models) only build headers inside `WFHeader`.
   * "encoding produces the bit layout of clause 20.1 of the standard"
         → `apci_layout_confirmed`, `…_unconfirmed`, `…_simpleAck`,
           `…_complexAck`, `…_segmentAck`, `…_error`, `…_reject`, `…_abort`:
